@@ -8,6 +8,10 @@
      SK <0|1|->    the two sides of the skeleton-agreement theorem are equal (`-`: lifting did not succeed)
      PV <0|1|->    statement provenance: the metas of the lifted statements in block order are the metas of
                    LiftFull.lifted_stmts of the renamed body
+     SD <0|1>      C08: SigAssignSource.source_metas_distinct_b, the hypothesis of
+                   C08_liftfull_distinct_sources_distinct_subkeys on this input
+     SN <n>        C08: number of `<--` / `-->` statements of the input
+     SKD <0|1|->   C08: the conclusion of that theorem, subkeys_distinct_b of the erased graph
    Only structural decoding/encoding here; everything with logic is extracted Gallina. *)
 open Datatypes
 open BinNums
@@ -127,6 +131,9 @@ let line l =
   let (kind, params, pfile, ploc, body) = decode (Stdlib.String.trim l) in
   let wf = LiftFull.definition_wf params pfile ploc body in
   let res = LiftFull.try_lift_impl kind params pfile ploc body in
+  let sd = SigAssignSource.source_metas_distinct_b body in
+  let sn = Stdlib.List.length (SigAssignSource.source_signal_assignments body) in
+  let skd = (match res with Ok r -> b01 (SignalAssign.subkeys_distinct_b (LiftFull.erase_cfg r.LiftFull.l_cfg)) | _ -> "-") in
   let out, sk, pv =
     match res with
     | Ok r ->
@@ -157,6 +164,6 @@ let line l =
         | _ -> "(err other)"), "-", "-")
     | Panic s -> (Printf.sprintf "(panic) site %d" (int_of_z s), "-", "-")
     | OutOfFuel -> ("(outoffuel)", "-", "-") in
-  Printf.sprintf "%s\tWF %s\tSK %s\tPV %s" out (b01 wf) sk pv
+  Printf.sprintf "%s\tWF %s\tSK %s\tPV %s\tSD %s\tSN %d\tSKD %s" out (b01 wf) sk pv (b01 sd) sn skd
 
 let () = each_line (fun l -> try line l with Failure m -> "(driver-error " ^ m ^ ")" | Not_found -> "(driver-error not-found)")
